@@ -32,6 +32,29 @@ def strip(n):
     return {"t": n["t"], "a": n["a"], "cp": n["cp"], "ks": n["ks"], "ch": [strip(c) for c in n["ch"]]}
 
 
+def flat(n, out=None):
+    """Preorder token list [t,a,cp,ks,n] (the trace encoding: TLC's JSON reader refuses nesting
+    deeper than 255)."""
+    if out is None:
+        out = []
+    out.append({"t": n["t"], "a": n["a"], "cp": n["cp"], "ks": n["ks"], "n": len(n["ch"])})
+    for c in n["ch"]:
+        flat(c, out)
+    return out
+
+
+def unflat(toks):
+    def at(i):
+        k = toks[i]
+        ch = []
+        i += 1
+        for _ in range(k["n"]):
+            c, i = at(i)
+            ch.append(c)
+        return node(k["t"], k["a"], k["cp"], k["ks"], ch), i
+    return at(0)[0]
+
+
 class Bad(Exception):
     pass
 
@@ -167,7 +190,8 @@ VALUE_START = set('{["-0123456789tfn')
 def read_frames(raw):
     """Split CLI stdout (bytes) into frames {pre, v, post}: pre = RS bytes before the value,
     post = every byte after it that can neither start a value nor be an RS.  Returns
-    (frames, n_ok); an unreadable remainder becomes one frame with v.t = "bad"."""
+    (frames, n_ok); an unreadable remainder becomes one frame with v.t = "bad".  Readable frames
+    also carry "span" = (start, end) of the value text in the decoded stdout."""
     try:
         s = raw.decode("utf-8")
     except UnicodeDecodeError:
@@ -187,11 +211,12 @@ def read_frames(raw):
             frames.append({"pre": pre, "v": node("bad", a=str(e)[:60], cp=[ord(c) for c in rest[:40]]), "post": []})
             return frames, ok
         ok += 1
+        i0 = j
         post = []
         while j < n and s[j] != '\x1e' and s[j] not in VALUE_START:
             post += list(s[j].encode("utf-8"))
             j += 1
-        frames.append({"pre": pre, "v": v, "post": post})
+        frames.append({"pre": pre, "v": v, "post": post, "span": (i, i0)})
         i = j
     return frames, ok
 
